@@ -205,6 +205,20 @@ def run_job(ctx, job):
     job.seconds += s
     job.log += out
     if rc != 0:
+        # the harness did not compile.  If the translator's OUTPUT is at fault - gcc itself rejects the generated C file (compiled alone against
+        # the runtime header) - this is a violation in its own right: code that does not compile does not behave as specified.  Anything else
+        # (a harness that no longer fits the code) is a tool limit.
+        gen = job.info.get("generated_c")
+        if gen and os.path.exists(gen):
+            gcc = ["gcc", "-std=gnu89", "-fsyntax-only", "-w"] + ["-D" + x for x in job.defines if x.startswith("WASM_")] + \
+                  ["-I", os.path.join(ctx.repo, "w2c2"), "-I", os.path.dirname(gen), gen]
+            rc2, out2, _ = _run(gcc, 120, cwd=d)
+            if rc2 != 0:
+                p = dict(name="generated-c-compiles", description="OBL the C file the translator generated for this probe module is accepted by gcc -std=gnu89 (with the runtime header)",
+                         status="FAILURE", line=None, file=gen, function=None, canary=False, trace=None, detail=out2[-1500:])
+                job.props.append(p); job.failed.append(p); job.cmds.append(" ".join(gcc))
+                job.status = "fail"
+                return job
         job.status, job.reason = "undecided", "goto-cc failed (rc=%d): %s" % (rc, out[-1500:])
         return job
     binf = gb1
@@ -292,8 +306,11 @@ def run_job(ctx, job):
         job.status, job.reason = "undecided", "no body for function(s): %s" % ",".join(nobody)
         return job
     unknown = []
+    drop = job.info.get("drop_props")
     for r in results:
         desc = r.get("description", "")
+        if drop and re.search(drop, desc):
+            continue
         loc = r.get("sourceLocation", {})
         p = dict(name=r.get("property", ""), description=desc, status=r.get("status", ""),
                  line=loc.get("line"), file=loc.get("file"), function=loc.get("function"))
